@@ -61,7 +61,7 @@ CHECKS = {
             'Every identifier of length <= 4/5 over an alphabet chosen to hit the lexer\'s token-class boundaries is set and '
             'read back by identity and must be #NAME? when unset; all 156 documented names must resolve and be shadowable; '
             'all 332 not-yet-supported names and all short unknown shapes must give #NAME? in 18 positions; custom functions '
-            'are observed through a call log.',
+            'are observed through a call log, incl. falsy callable objects, lower-case twins of built-in names and functions that reject what they are given (called once, no retry).',
             'Trusted: SUPPORTED_FORMULAS.md as the list of documented names; identifier grammar [A-Za-z_][A-Za-z0-9_]*.',
             'DESIGN.md §5 C09'),
     'C10': ('exhaustive enumeration of formulas up to a node bound (event order), of the whole cell-label space '
@@ -70,7 +70,7 @@ CHECKS = {
             'All expression trees with <= 5/6 nodes mixing cells, ranges, variables and nested calls are evaluated with '
             'recording listeners and the event list compared with a reference post-order walk; every column label of <= 3/4 '
             'letters and every row are sent through a formula and the event coordinates compared with an independent '
-            'bijective base-26 reference; all setter sequences of length <= 3 over 8 values (falsy ones included) from one or '
+            'bijective base-26 reference; all sequences of <= 3 subscription operations (on, once, off, off before anything was subscribed) per event followed by evaluations are compared with the emitter model; cell objects handed to listeners are kept and compared after the evaluation; all setter sequences of length <= 3 over 8 values (falsy ones included) from one or '
             'two listeners are replayed for each of the event kinds.',
             'Trusted: the reference post-order evaluator (SUM/+/*/unary minus only) and itertools.product order as '
             'bijective base-26.', 'DESIGN.md §5 C10'),
@@ -159,7 +159,7 @@ CHECKS = {
             'are replayed in a PRISTINE process (fork server started before anything is evaluated) and followed by 23 '
             'probes, each compared with its outcome as the only evaluation of a pristine process, with debug off and on; the '
             'set of heap states reachable by parse operations is searched to a fixpoint (~150 states on the current tree), '
-            'which decides the unbounded-repetition clause; every documented function x '
+            'which decides the unbounded-repetition clause; interpreter-wide settings (recursion limit, int/str digit limit, locale, time zone, environment ...) are compared before and after every evaluation; results that are lists are mutated by the host and the formula evaluated again (no aliasing of caches); every documented function x '
             'arity <= 2/3 x list-valued argument position is checked for deep-equality of host values before/after.',
             'Trusted: the heap fingerprint (stdlib objects opaque); fork() to restore a state; clock/random seams. PLY '
             'leftovers are part of the state key, not of the oracle.', 'DESIGN.md §5 C02'),
@@ -194,6 +194,24 @@ CHECKS = {
             'text/fractional arguments are not demanded.', 'DESIGN.md §5 C14'),
 }
 
+SCALE = {
+    'C02': 'number of evaluations on one parser before the probes',
+    'C03': 'depth 1..80 of re-entrant evaluation (cells, variables, functions, one scoped name)',
+    'C04': 'length of an operator chain, parenthesis and unary-minus depth',
+    'C05': 'digits of a literal, characters of a quoted literal, blanks, arguments, slots',
+    'C06': 'array length, padded numeric and date text',
+    'C07': 'texts differing in the last of n characters, n-digit integers',
+    'C08': 'the one error at the first / middle / last place of n operands, arguments or nesting levels',
+    'C09': 'number of variables and custom functions on one parser',
+    'C10': 'number of references in one formula',
+    'C11': 'a permutation of 1..n as flat list, rows of 16, range, arguments and literal array',
+    'C12': 'number of truth values, IFS conditions and SWITCH cases',
+    'C15': 'text length and item count, runs of blank items',
+    'C18': 'vector and grid sizes, CHOOSE arity',
+    'C20': 'number of listeners on one name',
+}
+CHANNELLED = ('C04', 'C05', 'C06', 'C07', 'C08', 'C11', 'C12', 'C13', 'C14', 'C15', 'C16', 'C17', 'C18')
+
 NOT_YET = 'check not built yet in this session (see DESIGN.md §5 for the planned bounded-exhaustive check)'
 
 
@@ -205,6 +223,13 @@ def main():
         pid = p['id']
         if pid in CHECKS and os.path.exists(os.path.join(HERE, 'hxverif', 'props', pid.lower() + '.py')):
             tech, text, note, ref = CHECKS[pid]
+            if pid in SCALE:
+                text += (' A size ladder (every size to 13, then the neighbourhoods of 16, 32, 64, 100, 128, 256, 512, 1000, 1024 '
+                         '[2048, 4096]) with closed-form oracles covers the size dimension: ' + SCALE[pid] + '.')
+            if pid in CHANNELLED:
+                text += (' A hash-selected share of all variable-binding evaluations is repeated with the values handed in by the '
+                         'cell / range listeners, by custom functions, and as instances of subclasses of float / int / str / '
+                         'datetime / list; outcomes must agree.')
             checks.append({
                 'property_id': pid,
                 'quick_cmd': './check %s quick' % pid,
